@@ -103,21 +103,33 @@ static void on_write_fault(int sig, siginfo_t* si, void* ctx) {
     _exit(78);
 }
 
+// Every shared object is saved the moment it has been created (written as an OUTPUT, or filled in by the driver) and put back
+// at the end of the initialisation: later initialisation steps hand some of them to the library as const inputs, and a library that
+// writes to its inputs on first use (caching a normalised representative, say) would otherwise do that here, before the reference
+// snapshot exists, and look stateless ever after.
+static Shared* g_pristine;
+#define KEEP(f) memcpy((uint8_t*) g_pristine + offsetof(Shared, f), (const uint8_t*) g_S + offsetof(Shared, f), sizeof(S.f))
+
 static void init_shared(uint64_t seed) {
     t_rng = seed | 1;
     size_t pg = (size_t) sysconf(_SC_PAGESIZE);
     g_maplen = ((sizeof(Shared) + pg - 1) / pg) * pg;
     g_S = (Shared*) mmap(NULL, g_maplen, PROT_READ | PROT_WRITE, MAP_PRIVATE | MAP_ANONYMOUS, -1, 0);
     g_snap = (Shared*) malloc(sizeof(Shared));
-    if (g_S == MAP_FAILED || !g_snap) { fprintf(stderr, "mmap failed\n"); exit(3); }
+    g_pristine = (Shared*) calloc(1, sizeof(Shared));
+    if (g_S == MAP_FAILED || !g_snap || !g_pristine) { fprintf(stderr, "mmap failed\n"); exit(3); }
     memset(&S, 0, sizeof S);
     S.p.h = S.h; S.sk.b = S.b; S.skfree.b = S.bfree; S.ndsk.b = S.ndb;
     embedded_pairing_wkdibe_setup(&S.p, &S.m, L, true, prng);
+    KEEP(p); KEEP(h); KEEP(m);
     memset(&S.at[0], 0, sizeof S.at[0]); S.at[0].idx = 1; prng(&S.at[0].id, 32);
     S.al.attrs = S.at; S.al.length = 1; S.al.omitAllFromKeysUnlessPresent = false;
+    KEEP(at); KEEP(al);
     embedded_pairing_wkdibe_keygen(&S.sk, &S.p, &S.m, &S.al, prng);
+    KEEP(sk); KEEP(b);
     embedded_pairing_wkdibe_attributelist_t none; none.attrs = NULL; none.length = 0; none.omitAllFromKeysUnlessPresent = false;
     embedded_pairing_wkdibe_keygen(&S.skfree, &S.p, &S.m, &none, prng);
+    KEEP(skfree); KEEP(bfree);
     memset(S.atf, 0, sizeof S.atf); memset(S.att, 0, sizeof S.att);
     // from: slot 0 = 2^256-1 (>= 2r), slot 2 = random with the top bits set (>= r), slot 3 hidden with all-ones id bits
     S.atf[0].idx = 0; memset(&S.atf[0].id, 0xff, 32);
@@ -129,24 +141,39 @@ static void init_shared(uint64_t seed) {
     S.att[1].idx = 1; ((uint8_t*) &S.att[1].id)[0] = 7;
     S.att[2].idx = 2; memcpy(&S.att[2].id, &S.atf[1].id, 32); S.att[2].omitFromKeys = true;
     S.alt.attrs = S.att; S.alt.length = 3; S.alt.omitAllFromKeysUnlessPresent = false;
+    KEEP(atf); KEEP(alf); KEEP(att); KEEP(alt);
     embedded_pairing_wkdibe_precompute(&S.pref, &S.p, &S.alf);
+    KEEP(pref);
     embedded_pairing_wkdibe_nondelegable_qualifykey(&S.ndsk, &S.p, &S.skfree, &S.alf);
+    KEEP(ndsk); KEEP(ndb);
     memset(&S.msg, 0xff, sizeof S.msg);
     memset(&S.kbig, 0xff, sizeof S.kbig);
+    KEEP(msg); KEEP(kbig);
     embedded_pairing_bls12_381_gt_multiply(&S.gt, embedded_pairing_bls12_381_gt_generator, (embedded_pairing_core_bigint_256_t*) &S.at[0].id);
+    KEEP(gt);
     { uint8_t mb[32]; memset(mb, 0xff, sizeof mb); embedded_pairing_lqibe_masterkey_unmarshal(&S.lmbig, mb, true, false); }
+    KEEP(lmbig);
     prng(S.hashbytes, sizeof S.hashbytes);
+    KEEP(hashbytes);
     embedded_pairing_bls12_381_g2_t q; embedded_pairing_bls12_381_g2_random(&q, prng);
     embedded_pairing_bls12_381_g2affine_from_projective(&S.q, &q);
+    KEEP(q);
     embedded_pairing_bls12_381_g2prepared_prepare(&S.prep, &S.q);
+    KEEP(prep);
     embedded_pairing_bls12_381_g1_t g; embedded_pairing_bls12_381_g1_random(&g, prng);
     embedded_pairing_bls12_381_g1affine_from_projective(&S.pt, &g);
+    KEEP(pt);
     embedded_pairing_lqibe_setup(&S.lp, &S.lm, prng);
+    KEEP(lp); KEEP(lm);
     prng(S.ih.hash, sizeof S.ih.hash);
+    KEEP(ih);
     embedded_pairing_lqibe_compute_id_from_hash(&S.id, &S.ih);
+    KEEP(id);
     embedded_pairing_lqibe_keygen(&S.lsk, &S.lm, &S.id);
+    KEEP(lsk);
     S.params_len = embedded_pairing_wkdibe_params_get_marshalled_length(&S.p, true);
     embedded_pairing_wkdibe_params_marshal(S.params_bytes, &S.p, true);
+    KEEP(params_len); KEEP(params_bytes);
     for (int w = 0; w < 2; w++) {
         // hierarchy 0 is S.p itself, hierarchy 1 a second setup; both reach the shared area only through marshal + unmarshal
         embedded_pairing_wkdibe_params_t p2; embedded_pairing_wkdibe_g1_t h2[L]; p2.h = h2; embedded_pairing_wkdibe_masterkey_t m2;
@@ -163,6 +190,9 @@ static void init_shared(uint64_t seed) {
         ok = ok && embedded_pairing_wkdibe_masterkey_unmarshal(&S.mu[w], buf, comp, true);
         if (!ok) { fprintf(stderr, "init: unmarshal of own output failed\n"); exit(3); }
     }
+    KEEP(pu); KEEP(hu); KEEP(sku); KEEP(bu); KEEP(mu);
+    // put every object back as it was when created
+    memcpy(g_S, g_pristine, sizeof(Shared));
     memcpy(g_snap, g_S, sizeof(Shared));
 }
 static void restore_shared(void) { memcpy(g_S, g_snap, sizeof(Shared)); }
@@ -263,7 +293,19 @@ static uint64_t run_op(int fam, uint64_t seed) {
         int n = embedded_pairing_wkdibe_params_set_length(&p, S.params_bytes, S.params_len, true);
         bool ok = n == L && embedded_pairing_wkdibe_params_unmarshal(&p, S.params_bytes, true, (seed & 1) != 0);
         uint8_t buf[4096]; embedded_pairing_wkdibe_secretkey_marshal(buf, &S.sk, false);
-        d = fnv(d, &ok, 1); d = fnv(d, &p.pairing, sizeof p.pairing); d = fnv(d, buf, embedded_pairing_wkdibe_secretkey_get_marshalled_length(&S.sk, false)); break;
+        d = fnv(d, &ok, 1); d = fnv(d, &p.pairing, sizeof p.pairing); d = fnv(d, buf, embedded_pairing_wkdibe_secretkey_get_marshalled_length(&S.sk, false));
+        // every shared object kind is marshalled from the shared (const) object itself, in both forms: marshalling is a read
+        bool c = (seed & 2) != 0;
+        embedded_pairing_wkdibe_params_marshal(buf, &S.p, c); d = fnv(d, buf, embedded_pairing_wkdibe_params_get_marshalled_length(&S.p, c));
+        embedded_pairing_wkdibe_masterkey_marshal(buf, &S.m, c); d = fnv(d, buf, embedded_pairing_wkdibe_masterkey_get_marshalled_length(c));
+        embedded_pairing_wkdibe_secretkey_marshal(buf, &S.skfree, c); d = fnv(d, buf, embedded_pairing_wkdibe_secretkey_get_marshalled_length(&S.skfree, c));
+        embedded_pairing_wkdibe_secretkey_marshal(buf, &S.ndsk, !c); d = fnv(d, buf, embedded_pairing_wkdibe_secretkey_get_marshalled_length(&S.ndsk, !c));
+        embedded_pairing_wkdibe_params_marshal(buf, &S.pu[seed & 1], !c); d = fnv(d, buf, embedded_pairing_wkdibe_params_get_marshalled_length(&S.pu[seed & 1], !c));
+        embedded_pairing_lqibe_params_marshal(buf, &S.lp, c); d = fnv(d, buf, embedded_pairing_lqibe_params_get_marshalled_length(c));
+        embedded_pairing_lqibe_id_marshal(buf, &S.id, c); d = fnv(d, buf, embedded_pairing_lqibe_id_get_marshalled_length(c));
+        embedded_pairing_lqibe_secretkey_marshal(buf, &S.lsk, c); d = fnv(d, buf, embedded_pairing_lqibe_secretkey_get_marshalled_length(c));
+        embedded_pairing_lqibe_masterkey_marshal(buf, &S.lm, c); d = fnv(d, buf, embedded_pairing_lqibe_masterkey_get_marshalled_length(c));
+        break;
     }
     case 9: {
         embedded_pairing_lqibe_ciphertext_t ct; uint8_t k1[32], k2[32];
